@@ -359,7 +359,7 @@ def act_rxcmds(rng, cmds, *, garbage=True):
 
 
 def act_receive(rng, payload, *, start="dirnxt", status=0x0D, pre_cmds=(), first_gap=None, gap_profile="none",
-                mid_cmd_p=0.0, end="dir", tail_cmds=(), idle_status=None, garbage=True):
+                mid_cmd_p=0.0, end="dir", tail_cmds=(), idle_status=None, garbage=True, end_event=0):
     """One receive packet.
 
     start: "dirnxt" (DIR rises together with NXT; an RxCmd with RxActive may or may not follow),
@@ -367,7 +367,7 @@ def act_receive(rng, payload, *, start="dirnxt", status=0x0D, pre_cmds=(), first
     first_gap: cycles (filled with RxCmd repeats) between the start and the first data byte; 0 = the first
            byte follows immediately.
     gap_profile: "none" | ("random", p) | ("fixed", k): RxCmd cycles between data bytes (NXT throttling).
-    end:   "dir" (DIR falls after the last byte), "rxcmd" (RxCmd with RxActive=0, then DIR falls).
+    end:   "dir" (DIR falls after the last byte), "rxcmd" (RxCmd with RxActive=0 -- RxEvent 00 or, with end_event=2, 10 -- then DIR falls).
     status: low nibble (LineState/VbusState) used for the RxCmds of this packet.
     """
     g = (lambda: rng.randrange(256)) if garbage else (lambda: 0)
@@ -403,7 +403,7 @@ def act_receive(rng, payload, *, start="dirnxt", status=0x0D, pre_cmds=(), first
         cyc.append((1, byte, "data"))
     if end == "rxcmd":
         idle = idle_status if idle_status is not None else (status & 0x0F)
-        cyc.append((0, idle & 0xCF, "cmd"))
+        cyc.append((0, (idle & 0xCF) | ((end_event & 2) << 4), "cmd"))      # RxEvent 00, or 10 = HostDisconnect (RxActive 0 as well)
     for c in tail_cmds:
         cyc.append((0, c, "cmd"))
     return cyc
